@@ -122,6 +122,8 @@ def check_case(case):
         w = r["what"] or ""
         cls = "inconclusive.substeps" if "sub stepping" in w else \
               "inconclusive.minimal_time_step" if "minimal value" in w else "inconclusive.other"
+        if cls == "inconclusive.other" and verbose == "quiet" and not w.strip():
+            cls = "inconclusive.quiet_run_failed"  # quiet runs (SecantOperatorPrediction) do not say why they failed
         if cls == "inconclusive.other":
             # any other reported error would mean that the generator writes invalid files
             return Result(False, "C48.harness.rejected_input", "mtest rejected a generated file: %s" % w[:400], sample=sample)
